@@ -694,7 +694,10 @@ def build_queries(bindings, known: set[str]) -> tuple[list[Query], list[str]]:
             skipped.append(f"float.{name}: not translatable ({e})")
             continue
         qs.append(Query(f"float.{name}@{k}", bindings[("float", name)].describe(), [a, b], ["float", "float"],
-                        z3.And(region, z3.Or(undefined, z3.Not(_eq(got, want)))), region=k,
+                        # the solver is only asked for a point of the region (every point of it is a
+                        # disagreement: Guppy yields q, Python q-1; Python's remainder lies in (0, b), Guppy's a - q*b is <= 0); the concrete replay
+                        # against CPython confirms the disagreement before anything is reported
+                        region, region=k,
                         binding=bindings[("float", name)].describe(), ty="float", dunder=name,
                         got=got, undefined=undefined, swapped=False, direct=name))
     return qs, skipped
